@@ -679,6 +679,8 @@ def rf_grid(tier, rng):
             for t in (1, 2, 3, 5):
                 for (c, a, cx) in variants:
                     grid.append(dict(input_dim=i, output_dim=o, num_terms=t, center=c, amplitude=a, complex=cx))
+    tight = [dict(input_dim=i, output_dim=o, num_terms=1, center=c, amplitude=a, complex=cx)
+             for i in (1, 2) for o in (1, 2) for (c, a, cx) in ((0, 1, True), (1 + 2j, 1.5, True), (0.5, 0.5, False))]
     if tier == 'quick':
         # keep every (input_dim, output_dim, complex) and every num_terms, thin out the rest deterministically
         keep = []
@@ -686,7 +688,7 @@ def rf_grid(tier, rng):
             if (g['input_dim'] + g['output_dim'] + g['num_terms'] + k) % 3 == 0:
                 keep.append(g)
         grid = keep
-    return grid
+    return tight + grid
 
 
 def rf_exact_args(raw_b, raw_c, xs):
@@ -791,8 +793,13 @@ def run_rf_config(ctx, res, rng, rec, cfg, n_draws, n_points_coq, n_points, term
         shape_ok = all(c[1] == (o, t, i) for c in rands)
         if len(rands) != want_r or len(exps) != (1 if cfg['complex'] else 0) or len(calls) != len(rands) + len(exps) or not shape_ok:
             res.disagreements.append({'kind': 'rf', 'cfg': repr(cfg), 'what': 'unexpected oracle consultation %r' % ([c[:2] for c in calls],)})
-            continue
-        if cfg['complex']:
+            if len(rands) < 3 or not shape_ok:
+                continue
+            # the model cannot follow this draw, but the property oracle still runs on it: frequencies and phases are the
+            # last two PRNG arrays
+            coq_draws = 0
+            A, P, B, Cc, ex = rands[0][2], None, rands[-2][2], rands[-1][2], None
+        elif cfg['complex']:
             A, P, B, Cc = rands[0][2], rands[1][2], rands[2][2], rands[3][2]
             ex = (exps[0][1], exps[0][2])
         else:
@@ -832,6 +839,21 @@ def run_rf_config(ctx, res, rng, rec, cfg, n_draws, n_points_coq, n_points, term
                 elif finite(*np.asarray(v).reshape(-1)):
                     points.append((xs, sc[0][1], sc[0][2], v))
             res.nontrivial.add(('rf', repr(cfg), d, repr(xs)))
+        # aligned evaluation points: for every output component and term, the point at which all sinusoids of that term
+        # peak together (x_k = (pi/2 - C_k) / B_k, from the recorded draws); for num_terms = 1 this is a maximiser of
+        # |f - center|, so the modulus bound is tested where it is tight
+        for oi in range(o):
+            for tj in range(min(t, 2)):
+                bb = 2 * math.pi * (B[oi][tj] - 0.5)
+                cc = 2 * math.pi * Cc[oi][tj]
+                if any(abs(b) < 1e-6 for b in bb):
+                    continue
+                for sgn in (1, -1):
+                    xs = [float((sgn * math.pi / 2 - c) / b) for b, c in zip(bb, cc)]
+                    stv, v = core.guarded(f, *xs)
+                    res.oracle_evals += 1
+                    if stv == 'ret':
+                        rf_check_values(cfg, f, xs, v, res, ':aligned')
         # a fixed function once drawn: draw more functions / consume the PRNG, then re-evaluate
         core.guarded(s.gen_sample)
         np.random.random_sample(3)
@@ -985,7 +1007,7 @@ def check_square(cfg, arr):
     det = cfg['determinant']
     if det is not None:
         dr, di = exact_det(rows)
-        dtol = Fraction(1e-9) * max(1, Fraction(scale) ** d)
+        dtol = Fraction(1e-10) * max(1, Fraction(scale) ** d)
         target = Fraction(det)
         if abs(dr - target) > dtol or abs(di) > dtol:
             bad.append('determinant %r%+rj is not %d (tolerance %.3g)' % (float(dr), float(di), det, float(dtol)))
@@ -1463,6 +1485,61 @@ def pass_to_attempt(p, dim):
     return term, trace
 
 
+def zero_shortcut_check(cfg, calls, arr):
+    """determinant = 0: the matrix may be handed on unmodified only when its determinant is 0 to numerical precision
+    (the source's own cut-off is |det| < 5e-13).  From the recorded library calls: if the last pass consulted
+    np.linalg.det and then neither drew an index nor asked for eigenvalues, the raw matrix was returned as is."""
+    if cfg.get('determinant') != 0:
+        return []
+    last = max((k for k, c in enumerate(calls) if c[0] == 'det'), default=None)
+    if last is None:
+        return ['determinant=0 requested but np.linalg.det was never consulted']
+    after = [c[0] for c in calls[last + 1:]]
+    if 'randint' in after or 'eigvals' in after or 'eigvalsh' in after:
+        return []
+    raw = abs(calls[last][2])
+    if raw < 5e-13:
+        return []
+    import numpy as np
+    return ['a matrix with determinant %r (not 0 to numerical precision) was returned unmodified; the sample has determinant %r'
+            % (calls[last][2], complex(np.linalg.det(np.asarray(arr))))]
+
+
+def run_zero_det_stream(ctx, res, rng, rec):
+    """many cheap draws for the determinant=0 families whose shortcut depends on a rare raw determinant"""
+    import numpy as np
+    from mitxgraders import SquareMatrices
+    quick = ctx['tier'] == 'quick' and not ctx['escalate']
+    n = 6000 if quick else 20000
+    count = 0
+    for dim in (4, 5):
+        for sym in ('diagonal', None, 'symmetric'):
+            for cx in (False, True):
+                cfg = dict(dimension=dim, symmetry=sym, traceless=False, determinant=0, complex=cx, norm=[2, 10])
+                st, s = core.guarded(SquareMatrices, **cfg)
+                if st != 'ret':
+                    continue
+                for d in range(n if sym == 'diagonal' else n // 10):
+                    rec.calls = []
+                    sta, arr = core.guarded(s.gen_sample)
+                    res.oracle_evals += 1
+                    count += 1
+                    if sta != 'ret':
+                        res.witnesses.append({'key': 'square-raise:%r' % (cfg,), 'kind': 'square', 'cfg': repr(cfg),
+                                              'what': 'gen_sample raised %r' % (arr,)})
+                        break
+                    bad = zero_shortcut_check(cfg, rec.calls, arr)
+                    a = np.asarray(arr)
+                    nrm = float(np.linalg.norm(a))
+                    if not bad and (d % 25 == 0 or abs(np.linalg.det(a)) > 1e-11 * max(1.0, nrm ** dim)):
+                        bad = check_square(cfg, arr)
+                    for b in bad:
+                        res.witnesses.append({'key': 'square:%r' % (cfg,), 'kind': 'square', 'cfg': repr(cfg), 'draw': d, 'what': b,
+                                              'sample': repr(a.tolist())})
+    rec.calls = []
+    res.distribution['zero_determinant_stream_draws'] = count
+
+
 def run_squares(ctx, res, rng, rec, terms, metas):
     import numpy as np
     from mitxgraders import SquareMatrices
@@ -1502,7 +1579,7 @@ def run_squares(ctx, res, rng, rec, terms, metas):
                 terms.append('(mkQ %s [] (Some ([], 0%%nat, [])) false)' % head)
                 metas.append(('square-unsampleable', repr(base)))
                 break
-            for b in check_square(cfg, arr):
+            for b in check_square(cfg, arr) + zero_shortcut_check(cfg, rec.calls[n0:], arr):
                 res.witnesses.append({'key': 'square:%r' % (base,), 'kind': 'square', 'cfg': repr(cfg), 'draw': d, 'what': b,
                                       'sample': repr(np.asarray(arr).tolist())})
             res.nontrivial.add(('square', repr(base), d))
@@ -1536,6 +1613,7 @@ def run_squares(ctx, res, rng, rec, terms, metas):
             if stv != 'ret':
                 res.witnesses.append({'key': 'square-raise:%r' % (base,), 'kind': 'square', 'cfg': repr(base),
                                       'what': 'accepted configuration but gen_sample raised %r' % (arr,)})
+    run_zero_det_stream(ctx, res, rng, rec)
     res.distribution['square_accepted_dim2to5'] = accepted
     res.distribution['square_rejected_dim2to5'] = rejected
     res.distribution['square_passes_histogram'] = dist
